@@ -38,6 +38,7 @@ const ID_WRAP: &str = "request-wrap-release";
 const ID_CAP: &str = "input-cap-255";
 const ID_STALE: &str = "unwind-stale-coordinates";
 const ID_BOUND: &str = "bound-input-reselected";
+const ID_SNAPSHOT: &str = "snapshot-keeps-staking-set";
 
 type Rows = Vec<Vec<u64>>;
 type K6 = [u64; 6];
@@ -503,7 +504,9 @@ fn do_create(
                     (edge, ID_EDGE, &[Chk::Exceed, Chk::Conserve, Chk::Validate]),
                     (wrap && !dbg, ID_WRAP, &[Chk::Exceed, Chk::Conserve, Chk::Validate]),
                     (cap, ID_CAP, &[Chk::Exceed, Chk::Conserve, Chk::Commit, Chk::Validate]),
-                    (stale, ID_STALE, &[Chk::NotUnspent, Chk::Validate]),
+                    // two outputs spent by one transaction get the same stale block id / index: equal amount and
+                    // slip index then give the same computed input twice
+                    (stale, ID_STALE, &[Chk::NotUnspent, Chk::Dup, Chk::Validate]),
                 ];
                 for (chk, what) in &bad {
                     match classes.iter().find(|(holds, _, explains)| *holds && explains.contains(chk)) {
@@ -1475,7 +1478,14 @@ fn case_raw(rng: &mut Rng, dbg: bool, len: usize, rt: &tokio::runtime::Runtime) 
                         let ks: Vec<SaitoUTXOSetKey> = tx.from.iter().map(|s| s.utxoset_key).collect();
                         let uniq: BTreeSet<&SaitoUTXOSetKey> = ks.iter().collect();
                         if uniq.len() != ks.len() {
-                            sim.rec.failures.push("staking transaction references the same output twice".to_string());
+                            let m = "staking transaction references the same output twice".to_string();
+                            // update_from_balance_snapshot files a BlockStake slip under unspent_slips
+                            // while the old staking_slips entry survives: selected from both sets
+                            if pre.staking_slips.iter().any(|k| pre.unspent_slips.contains(k)) {
+                                sim.rec.known.push((ID_SNAPSHOT, m));
+                            } else {
+                                sim.rec.failures.push(m);
+                            }
                         }
                         let sin: u128 = tx.from.iter().map(|s| s.amount as u128).sum();
                         let sout: u128 = tx.to.iter().map(|s| s.amount as u128).sum();
@@ -1584,6 +1594,45 @@ fn case_scripted(which: u64, dbg: bool, rt: &tokio::runtime::Runtime) -> Rec {
             sim.wind(b1, 5, true);
             let mut r = Rng::new(1);
             bound_probe(&mut sim, &mut r, rt, 3);
+            sim.rec
+        }
+        6 => {
+            // update_from_balance_snapshot keeps staking_slips and files the staked slip as unspent
+            let mut sim = Sim::new("scripted-snapshot", 5, dbg);
+            let me = sim.pk;
+            let mut st = mk_slip(&me, 645, SlipType::BlockStake);
+            st.block_id = 4;
+            st.tx_ordinal = 2;
+            st.slip_index = 1;
+            st.generate_utxoset_key();
+            let op = format!("OAddSlip 4 2 {} true", sim.tab.g_slip(&st));
+            sim.w.add_slip(4, 2, &st, true, None);
+            let rows = observe(&sim.w, &mut sim.tab);
+            sim.rec.push(vec![op], rows);
+            let op = format!("OSnapshot [{}]", sim.tab.g_slip(&st));
+            let snap = BalanceSnapshot { latest_block_id: 0, latest_block_hash: [0; 32], timestamp: 0, slips: vec![st.clone()] };
+            sim.w.update_from_balance_snapshot(snap, None);
+            let rows = observe(&sim.w, &mut sim.tab);
+            sim.rec.push(vec![op], rows);
+            sim.after_step("update_from_balance_snapshot", false);
+            let sorder: Vec<SaitoUTXOSetKey> = sim.w.staking_slips.iter().cloned().collect();
+            let uorder: Vec<SaitoUTXOSetKey> = sim.w.unspent_slips.iter().cloned().collect();
+            let op = format!("OStake {} {} 1000 10 0", sim.tab.g_keys(&sorder), sim.tab.g_keys(&uorder));
+            let pre = sim.w.clone();
+            if let Ok(tx) = sim.w.create_staking_transaction(1000, 10, 0) {
+                let mut rows = observe(&sim.w, &mut sim.tab);
+                rows.extend(tx_rows(&tx, &mut sim.tab));
+                sim.rec.push(vec![op], rows);
+                let ks: Vec<SaitoUTXOSetKey> = tx.from.iter().map(|s| s.utxoset_key).collect();
+                let uniq: BTreeSet<&SaitoUTXOSetKey> = ks.iter().collect();
+                if uniq.len() != ks.len() && pre.staking_slips.iter().any(|k| pre.unspent_slips.contains(k)) {
+                    sim.rec.known.push((ID_SNAPSHOT, "staking transaction references the same output twice".to_string()));
+                }
+            } else {
+                let mut rows = observe(&sim.w, &mut sim.tab);
+                rows.push(vec![7, 2]);
+                sim.rec.push(vec![op], rows);
+            }
             sim.rec
         }
         _ => {
@@ -1837,7 +1886,7 @@ fn main() {
     let rt = tokio::runtime::Builder::new_current_thread().enable_all().build().unwrap();
 
     let mut recs: Vec<Rec> = vec![];
-    for which in 0..6 {
+    for which in 0..7 {
         recs.push(case_scripted(which, dbg, &rt));
     }
     let n_chain = if thorough { 1300 } else { 220 };
